@@ -443,6 +443,72 @@ def record_programs(job):
     return out, stats
 
 
+def record_traces14(job):
+    """Statement-level traces of the REAL interpreter under a pinned scope, with the inferred format of every definition and of the
+    returned expression as facts (spec/StmtTrace.tla): also for programs with calls and constructs the machine does not model."""
+    from .. import linetrace
+    from ..equiv import apply_transform
+    seed, tier, k = job
+    rng = random.Random(seed * 1013 + k)
+    work = tempfile.mkdtemp(prefix='verif-c14t-')
+    progs, runs, stats = [], [], Counter()
+    try:
+        cand = []
+        if k == 0:
+            hf, _ = gen_prog.load_programs(HAND, work, 'c14thand')
+            cand += [(n, f, HAND[n]) for n, f in hf.items()]
+        prof = dict(PROFILES[k % len(PROFILES)])
+        prof['calls'] = 0.15
+        srcs, funcs, rej = progrun.generate_and_load(seed * 43 + k, 6 if tier == 'quick' else 30, prof, work, f'c14t_{k}_')
+        cand += [(n, f, srcs[n]) for n, f in funcs.items()]
+        for (name, f, src) in cand:
+            hand = name in HAND
+            for trial in range(len(SCOPES) if hand else 2):
+                actx = ARGCTX[trial % 3] if hand else rng.choice(ARGCTX)
+                scope = SCOPES[trial] if hand else rng.choice(SCOPES)
+                afmt = actx.format()
+                kset = SetFormat(frozenset(Fraction(i) for i in (1, 2, 3)))
+                fnf = FunctionFormat(scope, (afmt, afmt, ListFormat(afmt), kset), None)
+                try:
+                    du = DefineUse.analyze(f.ast)
+                    info = FormatInfer.analyze(f.ast, def_use=du, fn_fmt=fnf)
+                except Exception as e:      # noqa: BLE001
+                    stats[f'analysis-refused:{type(e).__name__}'] += 1
+                    continue
+
+                def fod(d, info=info):
+                    try:
+                        return fmt_json(info.by_def[d]) if d in info.by_def else None
+                    except (Unsupported, OutOfDomain):
+                        return None
+
+                def foe(e, info=info):
+                    try:
+                        return fmt_json(info.by_expr[e]) if e in info.by_expr else None
+                    except (Unsupported, OutOfDomain):
+                        return None
+                st, si = apply_transform(lambda: linetrace.static_info(f, fmt_of_def=fod, fmt_of_expr=foe), limit=30)
+                if st != 'ok':
+                    stats[f'not-traced:{str(si).split(":")[0]}'] += 1
+                    continue
+                si['src'] = src
+                si['cfgsrc'] = {'scope': str(scope), 'arg_format': str(actx), 'program': name}
+                kl = set(si['lines'])
+                wl = {l for l, r_ in si['lines'].items() if r_['k'] == 'with'}
+                vals = members(actx, rng, 40)
+                for i in range(12 if tier == 'quick' else 30):
+                    args = [rng.choice(vals), rng.choice(vals), [rng.choice(vals) for _ in range(i % 4)], rng.choice([1, 2, 3])]
+                    r = linetrace.record_run(f, args, scope, known_lines=kl, with_lines=wl)
+                    if r is None:
+                        continue
+                    runs.append({'prog': len(progs), 'ev': r['ev'], 'ret': r['ret'], 'exc': r['exc'], 'mut': r['mut'], 'cx0': r['cx0'],
+                                 'args': repr(args)[:300]})
+                progs.append(si)
+    finally:
+        shutil.rmtree(work, ignore_errors=True)
+    return progs, runs, stats
+
+
 def run(tier: str) -> int:
     rep = core.Report('C14', tier)
     rng = random.Random(core.seed() * 13 + 1)
@@ -486,6 +552,34 @@ def run(tier: str) -> int:
                      {'program': p['src'], 'config': p['cfgsrc'], 'input': p['inputs'][idx - 1], 'clause': clause, 'where': what,
                       'bound': [(s['t'].get('n') if s['k'] == 'Assign' else 'return', s['fmt'])
                                 for b in p['funcs'][p['main']]['blocks'] for s in b if 'fmt' in s and str(s.get('id')) == str(what)]})
+    # --- the same bounds on statement traces of the real interpreter (programs with calls included)
+    from .. import linetrace
+    tprogs, truns = [], []
+    for ps, rs, st in core.pool_map(record_traces14, [(core.seed(), tier, k) for k in range(2 if tier == 'quick' else 6)], chunksize=1):
+        base = len(tprogs)
+        stats.update({'trace:' + k_: v for k_, v in st.items()})
+        tprogs += ps
+        for r_ in rs:
+            r_['pid'] = base + r_.pop('prog') + 1
+            r_['tid'] = len(truns)
+            truns.append(r_)
+    if truns:
+        tout = linetrace.validate([{k_: r_[k_] for k_ in ('tid', 'pid', 'ev', 'ret', 'exc', 'mut', 'cx0')} for r_ in truns], tprogs)
+        rep.add_tlc(tout.generated, tout.distinct)
+        for (tid, clause, what) in tout.mismatches:
+            if clause not in fmt_clauses:
+                continue            # facts of the other analyses and the context discipline: C13 / C04
+            r_ = truns[tid]
+            p = tprogs[r_['pid'] - 1]
+            key = {'clause': clause}
+            if clause == 'inferred-format-misses-negative-zero':
+                key['neg_or_mul'] = any(t in p['src'] for t in ('-', '*', 'fma'))
+            if clause == 'inferred-format-misses-value':
+                key['sum_in_program'] = 'sum(' in p['src']
+            rep.mismatch(key, {'program': p['src'], 'config': p['cfgsrc'], 'args': r_['args'], 'clause': clause, 'where': what,
+                               'observed_by': 'statement trace of the real interpreter (sys.settrace)'})
+    rep.cov['statement_traces'] = len(truns)
+    rep.cov['statement_trace_events'] = sum(len(r_['ev']) for r_ in truns)
     runs = sum(len(p['inputs']) for p in progs)
     skipc = Counter(s[3] for s in skips)
     rep.cov.update({'abstract_records': len(recs), 'abstract_by_kind': dict(Counter(r['t'] for r in recs)),
